@@ -62,6 +62,8 @@ func (e *eng) Exec(op []string) string {
 			}
 		}
 		return strings.Join(res, " || ")
+	case "wnack":
+		return e.w.Downs[a(1)].Nack(uint16(a(2)), 0) + " | " + e.w.Downs[a(1)].Layer()
 	case "late":
 		e.lates = append(e.lates, e.w.Late(time.Duration(a(1))*time.Microsecond))
 		return "ok"
@@ -106,6 +108,7 @@ func gen(t *common.Trace, e common.Engine, r *common.Rng, thorough bool) {
 			}
 		}
 		src := common.NewSource(r, codec)
+		sentSeqs := make([][]int, n)
 		frames := r.Range(nframes/3, nframes)
 		lateAt := map[int]bool{}
 		for k := r.Intn(4); k > 0; k-- {
@@ -113,11 +116,25 @@ func gen(t *common.Trace, e common.Engine, r *common.Rng, thorough bool) {
 		}
 		for fi := 0; fi < frames; fi++ {
 			for _, p := range src.NextFrame(fi == 0) {
-				do("wfeed %s", p)
+				res := do("wfeed %s", p)
+				for i, part := range strings.Split(res, " || ") {
+					f := strings.Fields(part)
+					if len(f) > 1 && f[0] == "sent" && i < len(sentSeqs) {
+						sentSeqs[i] = append(sentSeqs[i], common.Atoi(f[1]))
+					}
+				}
 			}
 			if fi < 10 {
 				for i := 0; i < n; i++ {
 					do("wadjust %d", i)
+				}
+			}
+			if r.Intn(6) == 0 {
+				// a receiver NACKs a number it was recently sent (or a neighbour)
+				i := r.Intn(n)
+				if outs := sentSeqs[i]; len(outs) > 0 {
+					o := outs[len(outs)-1-r.Intn(min(len(outs), 30))]
+					do("wnack %d %d", i, (o+common.Pick(r, 0, 0, 0, 1, -1))&0xFFFF)
 				}
 			}
 			if lateAt[fi] {
